@@ -53,10 +53,7 @@ def _memory_above_future(ast):
 
 
 def envelope(sc):
-    out = []
-    if _memory_above_future(sc['ast']):
-        out.append('memory-past-above-delayed')
-    return out
+    return common.warmup_visible(sc['ast']) if sc.get('pastify') else []
 
 
 def gen(rng, tier):
